@@ -61,7 +61,7 @@ vars == <<l, hdr, E, sub, addCall, addRet, enters, exits, enterAt, exitAt, deqd,
           waitRet, lastRes, rank, pend, R, ctlPending, ws, epoch, pauseStarts, concNow, concMax, concSince,
           qclosed, lastExitAt, lastDeqAt, rr, rrPrev, crashed, raced, overlap, pcancel, ref, started, tune, consOf, ad>>
 
-NoTune == [n |-> 0, old |-> {}]
+NoTune == [n |-> 0, old |-> {}, keep |-> 0]      \* keep: the limit set by the last TunePool that returned alone, which Stop / Restart / Bind must not change
 NoCall == [op |-> "none", job |-> 0, qi |-> 0, b |-> 0, n |-> 0, at |-> 0, snap |-> {}, clean |-> FALSE, entered |-> {},
            solo |-> FALSE, quiet |-> FALSE, ref |-> "unknown", same |-> FALSE, rankFloor |-> -1, closedBefore |-> FALSE, qclosedBefore |-> FALSE, waitedBefore |-> FALSE]
 NoHdr == [ev |-> "reset", ep |-> "", mode |-> "gated", wk |-> "plain", conc |-> 1, ncpu |-> 1, queues |-> <<>>, jobs |-> <<>>,
@@ -192,7 +192,7 @@ OnCall(e) ==
   /\ pauseStarts' = IF e.op \in {"Resume", "Restart"} THEN 0 ELSE pauseStarts
   /\ qclosed' = [q \in Queues |-> IF e.op = "QClose" /\ e.qi = q /\ qclosed[q] = "open" THEN "closing" ELSE qclosed[q]]
   /\ pcancel' = (pcancel \/ (e.op = "CancelCtx" /\ hdr.ctx))
-  /\ tune' = IF e.op \in Retune THEN NoTune ELSE tune
+  /\ tune' = IF e.op \in Retune THEN [NoTune EXCEPT !.keep = IF e.op = "TunePool" THEN 0 ELSE tune.keep] ELSE tune
   /\ U(<<ref, started>>)
   \* Stop / Restart / Bind / context cancellation overlapping another state-changing call: the combined effect of such
   \* concurrent lifecycle calls is specified nowhere (the properties quantify over call sequences), nothing is concluded afterwards
@@ -246,7 +246,10 @@ OnRet(e) ==
   \* a TunePool that has returned while no other call that changes the limit or the dispatchers was in progress fixes the limit;
   \* the jobs dispatched before it are those seen leaving their queue and not yet finished
   /\ tune' = IF pc.op = "TunePool" /\ e.res = "nil" /\ (\A c \in Clients : c = e.p \/ pend[c].op \notin Retune)
-               THEN [n |-> NormConc(pc.n), old |-> {j \in Jobs : deqd[j] /\ exits[j] = 0}]
+               THEN [n |-> NormConc(pc.n), old |-> {j \in Jobs : deqd[j] /\ exits[j] = 0}, keep |-> NormConc(pc.n)]
+               \* a Stop / Restart / Bind that has returned alone leaves the limit where the last TunePool put it
+               ELSE IF pc.op \in Retune \ {"TunePool"} /\ alone /\ (\A c \in Clients : c = e.p \/ pend[c].op \notin Retune)
+               THEN [n |-> tune.keep, old |-> {j \in Jobs : deqd[j] /\ exits[j] = 0}, keep |-> tune.keep]
                ELSE tune
   /\ U(<<addCall, enters, exits, enterAt, exitAt, deqd, closeStarted, mp, concSince, concMax, pcancel, overlap, consOf>>)
   /\ U(miscVars)
@@ -447,6 +450,9 @@ C10_NoCrash == ~crashed
 \* nothing is silently dropped: at rest every accepted job has run, or is closed, or is still counted as pending
 Limbo == {j \in Jobs : Accepted(j) /\ enters[j] = 0 /\ E.jst[ToString(j)] \notin {"Closed", ""}}     \* "": no handle (batch item)
 C10_NoDrop == Quiescent /\ NoUnknown /\ (\A q \in Queues : ~IsAdapterQ(q)) => Cardinality(Limbo) <= E.pending
+\* a batch submitted to a queue whose Close had returned consists of rejected items only: waiting for it or reading it to its end returns
+C10_BatchReleased == Quiescent => \A c \in Clients : pend[c].op \in {"BatchWait", "BatchRead"} /\ (\E i \in DOMAIN E.blocked : E.blocked[i] = c)
+                                     => \E j \in Jobs : BatchOf(j) = pend[c].b /\ sub[j] # "rej"
 C10_Released == Quiescent => \A c \in Clients : pend[c].op \in {"Wait", "Result"} /\ (\E i \in DOMAIN E.blocked : E.blocked[i] = c)
                                /\ pend[c].job \in Jobs => ~closeNil[pend[c].job]
 
